@@ -484,6 +484,10 @@ pub struct Pg<'a> {
     pub opts: GenOpts,
     ext: &'static [Ext],
     used_ext: BTreeSet<usize>,
+    /// externs that are additionally imported through a second symbol of the same name (second PLT slot)
+    dup_ext: BTreeSet<usize>,
+    /// emit such duplicate imports (order-sensitive inputs only)
+    allow_dup_ext: bool,
     ro_offs: Vec<u64>,
     /// checks the program is built to trigger (only syntactic, certain triggers)
     pub expect: BTreeSet<String>,
@@ -503,6 +507,11 @@ impl<'a> Pg<'a> {
     fn ext_addr(&mut self, name: &str) -> Option<u64> {
         let i = self.ext_idx(name)?;
         self.used_ext.insert(i);
+        if self.allow_dup_ext && self.rng.chance(1, 3) {
+            // call through the second import of the same name
+            self.dup_ext.insert(i);
+            return Some(self.lay.plt_base + 0x10 * i as u64 + 8);
+        }
         Some(self.lay.plt_base + 0x10 * i as u64)
     }
     fn ro(&self, s: &str) -> u64 {
@@ -1723,6 +1732,7 @@ pub fn gen_input(rng: &mut Rng, opts: &GenOpts) -> Input {
     let lay = Layout::new(opts.kind);
     let (ro_bytes, ro_offs) = rodata_bytes();
     let ext: &'static [Ext] = if opts.kind == ElfKind::Lkm { EXT_LKM } else { EXT_USER };
+    let rng_dup = rng.chance(1, 3);
     let n_funcs = 2 + rng.usize_below(5);
     let mut pg = Pg {
         rng,
@@ -1730,6 +1740,8 @@ pub fn gen_input(rng: &mut Rng, opts: &GenOpts) -> Input {
         opts: opts.clone(),
         ext,
         used_ext: BTreeSet::new(),
+        dup_ext: BTreeSet::new(),
+        allow_dup_ext: opts.order_bias && opts.kind != ElfKind::Lkm && rng_dup,
         ro_offs,
         expect: BTreeSet::new(),
         n_funcs,
@@ -1796,6 +1808,15 @@ pub fn gen_input(rng: &mut Rng, opts: &GenOpts) -> Input {
     for i in &ext_idx {
         extern_names.push(ext[*i].0.to_string());
         externs.push(extern_symbol_json(&lay, *i, &ext[*i], pg.rng));
+    }
+    for i in pg.dup_ext.clone() {
+        // second import of the same name with its own address and TID
+        let mut dup = extern_symbol_json(&lay, i, &ext[i], pg.rng);
+        let a = format!("{:08x}", lay.plt_base + 0x10 * i as u64 + 8);
+        dup["tid"] = tidj(&format!("sub_{a}"), &a);
+        dup["addresses"] = json!([a]);
+        externs.push(dup);
+        pg.features.insert("duplicate-import-name".into());
     }
     pg.rng.shuffle(&mut externs);
     pg.rng.shuffle(&mut subs);
@@ -1872,6 +1893,8 @@ fn tiny(chain: bool) -> Input {
         opts: opts.clone(),
         ext: EXT_USER,
         used_ext: BTreeSet::new(),
+        dup_ext: BTreeSet::new(),
+        allow_dup_ext: false,
         ro_offs,
         expect: BTreeSet::new(),
         n_funcs: 1,
